@@ -10,6 +10,9 @@ use std::time::{Duration, SystemTime};
 #[derive(Clone, Debug)]
 pub enum Step {
     Write(String, Vec<u8>),
+    /// write an input file and give it a modification time in the past (a file restored by
+    /// `cp -p`, tar or a VCS checkout)
+    WriteOld(String, Vec<u8>),
     Mkdir(String),
     Remove(String),
     OutWrite(String, Vec<u8>),
@@ -144,23 +147,17 @@ fn snapshot(dir: &Path) -> BTreeMap<String, Vec<u8>> {
     m
 }
 
-fn old_time() -> SystemTime {
-    SystemTime::UNIX_EPOCH + Duration::from_secs(1_000_000_000)
+/// modification times before a run (the files' own times are left alone: ructe, or a changed
+/// ructe, may legitimately or illegitimately look at them)
+fn mtimes(dir: &Path) -> BTreeMap<String, Option<SystemTime>> {
+    snapshot(dir).keys().map(|p| (p.clone(), std::fs::metadata(p).and_then(|m| m.modified()).ok())).collect()
 }
 
-fn stamp(dir: &Path) {
-    for p in snapshot(dir).keys() {
-        if let Ok(f) = std::fs::File::options().write(true).open(p) {
-            let _ = f.set_modified(old_time());
-        }
-    }
-}
-
-fn written(dir: &Path, before: &BTreeMap<String, Vec<u8>>) -> BTreeSet<String> {
+fn written(dir: &Path, before: &BTreeMap<String, Option<SystemTime>>) -> BTreeSet<String> {
     let mut w = BTreeSet::new();
     for p in snapshot(dir).keys() {
         let m = std::fs::metadata(p).and_then(|m| m.modified()).ok();
-        if !before.contains_key(p) || m != Some(old_time()) {
+        if before.get(p) != Some(&m) {
             w.insert(p.clone());
         }
     }
@@ -224,7 +221,9 @@ pub struct RunResult {
 pub fn run_once(exe: &Path, root: &Path, outdir: &Path, script: &[SOp], k: usize) -> RunResult {
     let indir = root.join("in");
     let before = snapshot(outdir);
-    stamp(outdir);
+    let before_times = mtimes(outdir);
+    // a write in the same clock tick as the file's last modification would go unnoticed
+    std::thread::sleep(Duration::from_millis(3));
     // the statics handle is held from the first static call to the end of the static calls;
     // template calls after the first static call run once it is dropped (see `child`)
     let script: Vec<SOp> = {
@@ -265,7 +264,11 @@ pub fn run_once(exe: &Path, root: &Path, outdir: &Path, script: &[SOp], k: usize
             }
             SOp::F(p) => {
                 let a = abs(p);
-                inputs.push((a.clone(), false));
+                // a file without an extension is skipped by add_file: it does not influence the output
+                let fname = a.rsplit('/').next().unwrap_or("");
+                if fname != ".." && fname.rfind('.').map_or(false, |i| i > 0) {
+                    inputs.push((a.clone(), false));
+                }
                 let c = std::fs::read(&a).unwrap_or_default();
                 ops_model.push(format!("F:{}:{}", hex(a.as_bytes()), hex(&c)));
                 child_ops.push(format!("F {}", hex(pass(p).as_bytes())));
@@ -325,7 +328,7 @@ pub fn run_once(exe: &Path, root: &Path, outdir: &Path, script: &[SOp], k: usize
         stdout.push(format!("HARNESS-ERROR child exit {:?}: {}", outp.status.code(), String::from_utf8_lossy(&outp.stderr)));
     }
     let after = snapshot(outdir);
-    let writes = written(outdir, &before);
+    let writes = written(outdir, &before_times);
     let names: Vec<(String, String)> = std::fs::read_to_string(&names_file)
         .unwrap_or_default()
         .lines()
@@ -369,6 +372,16 @@ fn apply(root: &Path, outdir: &Path, s: &Step) {
                 let _ = std::fs::create_dir_all(d);
             }
             let _ = std::fs::write(p, c);
+        }
+        Step::WriteOld(rel, c) => {
+            let p = indir.join(rel);
+            if let Some(d) = p.parent() {
+                let _ = std::fs::create_dir_all(d);
+            }
+            let _ = std::fs::write(&p, c);
+            if let Ok(f) = std::fs::File::options().write(true).open(&p) {
+                let _ = f.set_modified(SystemTime::now() - Duration::from_secs(3600));
+            }
         }
         Step::Mkdir(rel) => {
             let _ = std::fs::create_dir_all(indir.join(rel));
@@ -441,7 +454,7 @@ fn dedup_steps(steps: Vec<Step>) -> Vec<Step> {
     let mut out = Vec::new();
     for s in steps.into_iter().rev() {
         let key = match &s {
-            Step::Write(p, _) => p.clone(),
+            Step::Write(p, _) | Step::WriteOld(p, _) => p.clone(),
             Step::Mkdir(p) => format!("{p}/"),
             _ => String::new(),
         };
@@ -474,7 +487,15 @@ fn rand_content(r: &mut Rng) -> Vec<u8> {
             let n = *r.pick(&[55usize, 56, 57, 63, 64, 65, 119, 120, 128]);
             r.bytes(n)
         }
-        4 => b"body{color:black}\n".to_vec(),
+        4 => {
+            if r.chance(1, 3) {
+                // around and beyond typical I/O buffer sizes
+                let n = *r.pick(&[4095usize, 4096, 8193, 65535, 65536, 65537, 70001, 131073]);
+                r.bytes(n)
+            } else {
+                b"body{color:black}\n".to_vec()
+            }
+        }
         5 => b"\"quoted\" \\ back\nslash \r\n\t\0 \x7f \xff".to_vec(),
         _ => {
             let n = r.range(1, 300);
@@ -575,7 +596,9 @@ fn history_scenario(r: &mut Rng) -> Scenario {
             0 => steps.push(Step::Write(format!("templates/{}.rs.html", r.pick(STEMS)), r.pick(GOOD_TEMPLATES).as_bytes().to_vec())),
             1 => {
                 if !files.is_empty() {
-                    steps.push(Step::Write(r.pick(&files).clone(), r.pick(GOOD_TEMPLATES).as_bytes().to_vec()));
+                    let f = r.pick(&files).clone();
+                    let c = r.pick(GOOD_TEMPLATES).as_bytes().to_vec();
+                    steps.push(if r.chance(1, 2) { Step::WriteOld(f, c) } else { Step::Write(f, c) });
                 }
             }
             2 => {
